@@ -152,7 +152,8 @@ struct Explorer {
     bool step(int from, Action const& a, int partner)
     {
         ++transitions;
-        auto const& h = nodes[std::size_t(from)].hist;
+        // by value: nodes may reallocate when this transition adds a state, and the case description is still needed after that
+        auto const h = nodes[std::size_t(from)].hist;
         std::unique_ptr<State> s;
         std::unique_ptr<State> p;
         Trap tb = guarded([&] {
